@@ -173,14 +173,16 @@ impl<'a> Deriv<'a> {
         (self.eval)(v)
     }
 }
-/// flat (parse_val), deep (DeepEx::parse), flat converted to deep, deep converted to flat
-const FORMS: [&str; 4] = ["flat", "deep", "flat->deep", "deep->flat"];
+/// flat (parse_val), deep (DeepEx::parse), flat converted to deep, deep converted to flat, flat
+/// without constant folding (parse_wo_compile)
+const FORMS: [&str; 5] = ["flat", "deep", "flat->deep", "deep->flat", "flat-uncompiled"];
 fn derive<'a>(form: &str, text: &'a str, i: usize) -> exmex::ExResult<Deriv<'a>> {
     Ok(match form {
         "flat" => Deriv::of(exmex::parse_val::<i32, f64>(text)?.partial(i)?),
         "deep" => Deriv::of(VDeep::parse(text)?.partial(i)?),
         "flat->deep" => Deriv::of(exmex::parse_val::<i32, f64>(text)?.to_deepex()?.partial(i)?),
         "deep->flat" => Deriv::of(VFlat::from_deepex(VDeep::parse(text)?)?.partial(i)?),
+        "flat-uncompiled" => Deriv::of(VFlat::parse_wo_compile(text)?.partial(i)?),
         // relaxed differentiation: operators without a rule (inside the condition) are
         // differentiated per operand / kept as they are
         "flat:per-operand" => Deriv::of(exmex::parse_val::<i32, f64>(text)?.partial_relaxed(i, exmex::MissingOpMode::PerOperand)?),
@@ -395,7 +397,7 @@ fn condition_arithmetic(t: &std::sync::Arc<Table>, rep: &mut Report, th: bool) {
     for a in accs {
         rep.absorb(a);
     }
-    rep.bounds.push(format!("condition-arithmetic: {} arithmetic conditions (sizes {sizes:?}) x {} comparisons x 2 right-hand sides x mirrored x {} branch pairs = {total} piecewise trees x 4 forms x every variable x 6 float points: complete in {:.1}s", space.total, cmps.len(), pairs.len(), t0.elapsed().as_secs_f64()));
+    rep.bounds.push(format!("condition-arithmetic: {} arithmetic conditions (sizes {sizes:?}) x {} comparisons x 2 right-hand sides x mirrored x {} branch pairs = {total} piecewise trees x 5 forms x every variable x 6 float points: complete in {:.1}s", space.total, cmps.len(), pairs.len(), t0.elapsed().as_secs_f64()));
 }
 
 /// `F if (A % B) cmp C else G`: an operator without derivative rule inside the condition, through
@@ -504,7 +506,7 @@ fn all_comparisons(t: &std::sync::Arc<Table>, rep: &mut Report) {
     for a in accs {
         rep.absorb(a);
     }
-    rep.bounds.push(format!("all-comparisons: {} piecewise trees `F if A cmp B else G` (six comparisons, all pairs of 5 leaves, 3 branch pairs) x 4 forms x every variable: complete", trees.len()));
+    rep.bounds.push(format!("all-comparisons: {} piecewise trees `F if A cmp B else G` (six comparisons, all pairs of 5 leaves, 3 branch pairs) x 5 forms x every variable: complete", trees.len()));
 }
 
 fn name_of<'a>(tree: &Tree, t: &'a Table) -> &'a str {
